@@ -357,6 +357,60 @@ func genDeque(g *Gen) {
 		g.Emit("deque %s %s", init, strings.Join(dqRandomOps(g, 1+g.R.Intn(maxOps)), ","))
 		g.Count("random")
 	}
+	// 3. bursts: a large free list that survives (the deque never becomes empty) and is drained again
+	for i := 0; i < g.pick(12, 60); i++ {
+		g.Emit("deque %s %s", []string{"zero", "new:4"}[g.R.Intn(2)], strings.Join(dqBurstOps(g), ","))
+		g.Count("burst")
+	}
+}
+
+// dqBurstOps: a burst — many elements pushed, most of them removed by handle without the deque ever becoming empty (so the
+// free-slot stack grows large and is NOT cleared by the automatic reset), then new pushes that drain the free list again:
+// every slot handed out must be a fresh one or one that was really freed, whatever the stack does with its storage.
+func dqBurstOps(g *Gen) []string {
+	m := dqNewModel()
+	var ops []string
+	do := func(op string) { m.apply(op); ops = append(ops, op) }
+	n := 70 + g.R.Intn(260)
+	for i := 0; i < n; i++ {
+		if g.R.Intn(4) == 0 {
+			do(fmt.Sprintf("pf:%d", g.R.Intn(1000)))
+		} else {
+			do(fmt.Sprintf("pb:%d", g.R.Intn(1000)))
+		}
+	}
+	keep := 1 + g.R.Intn(n/4)
+	for len(m.insts[m.cur]) > keep {
+		s := m.insts[m.cur]
+		switch g.R.Intn(6) {
+		case 0:
+			do("popf")
+		case 1:
+			do("popb")
+		default:
+			do(fmt.Sprintf("rm:%d", s[g.R.Intn(len(s))].id))
+		}
+	}
+	refill := (n-keep)/2 + g.R.Intn(n)
+	for i := 0; i < refill; i++ {
+		s := m.insts[m.cur]
+		switch g.R.Intn(5) {
+		case 0:
+			do(fmt.Sprintf("ia:%d:%d", g.R.Intn(1000), s[g.R.Intn(len(s))].id))
+		case 1:
+			do(fmt.Sprintf("ib:%d:%d", g.R.Intn(1000), s[g.R.Intn(len(s))].id))
+		default:
+			do(fmt.Sprintf("pb:%d", g.R.Intn(1000)))
+		}
+		if i%16 == 0 {
+			do(fmt.Sprintf("rg:%d", 3))
+		}
+	}
+	do(fmt.Sprintf("rg:%d", len(m.insts[m.cur])+1))
+	for len(m.insts[m.cur]) > 0 && g.R.Intn(40) != 0 {
+		do("popf")
+	}
+	return ops
 }
 
 // dqRandomOps produces one random sequence. It runs in phases (grow / shrink / churn) whose mix of
